@@ -43,6 +43,9 @@ func c09Tmpls() []*expTmpl {
 		c09Huge(),
 		// fixed-length octet array (user-defined enterprise element) + u16 sentinel
 		mkTmpl(260, []string{"verifFixedOctets8", "sourceTransportPort"}, []uint32{55555, 0}),
+		// a re-definition of template 256 with four fields; it is only ever sent over a failing connection,
+		// so it never reaches the wire and the three-field definition (if sent) stays in force
+		mkTmpl(256, []string{"sourceIPv4Address", "destinationTransportPort", "packetDeltaCount", "protocolIdentifier"}, []uint32{0, 0, 0, 0}),
 	}
 }
 
@@ -76,6 +79,8 @@ func c09Ops(sizes bool) []c09op {
 		{"Data(fixedoct, 3 octets for the 8-octet element)", "illtyped", 4, 1, 5},
 		{"Data(fixedoct, 2nd record 9 octets for the 8-octet element)", "illtyped", 4, 2, 6},
 		{"Data(fixedoct, no octets for the 8-octet element)", "illtyped", 4, 1, 7},
+		{"Tmpl(a re-defined with 4 fields) with the connection write failing", "tmpl-writefail", 5, 0, 0},
+		{"Data(4 fields for template a)", "data", 5, 1, 0},
 	}
 	if sizes {
 		ops = []c09op{{"Tmpl(b)", "tmpl", 1, 0, 0}, {"Data(a,1) [no template a]", "unknown-a", 0, 1, 0}}
@@ -116,6 +121,9 @@ func (s *c09sys) Apply(opi int) (v *xplore.Violation) {
 		}
 	case "data":
 		set, ref = dataSet(t, op.n, 5, opi%3)
+		if op.t == 5 {
+			mustFail = "a record's field count differs from the template's (the four-field re-definition never reached the wire)"
+		}
 	case "unknown-id", "unknown-a":
 		tt := *t
 		if op.kind == "unknown-id" {
@@ -336,7 +344,7 @@ func c09Configs(tier string) []*xplore.Config {
 			// JSON mode: the same refusals must leave the connection untouched although records are written one by one
 			var jops []c09op
 			for _, o := range ops {
-				if o.kind != "v4in6" && o.t != 3 && o.t != 4 { // (JSON mode cannot render octet arrays)
+				if o.kind != "v4in6" && o.t != 3 && o.t != 4 && o.t != 5 { // (JSON mode cannot render octet arrays; a template "write" cannot fail there)
 					jops = append(jops, o)
 				}
 			}
